@@ -119,12 +119,21 @@ func vLess(a, b []byte) bool { // bytewise lexical, a != b assumed when used
 // C11 (d): map keys come out sorted bytewise, for every insertion order; the map round-trips.
 func VerifC11_MapOrderInt() {
 	verif.NoPanic()
-	nk := 2 + verif.Tier()
-	verif.Bound("C11d keys", "2 (quick) / 3 (thorough) symbolic keys over the int8 range (quick) / int16 range (thorough), held in an int64 map; all rotations and reversals of insertion order")
+	nk := 2
+	wide := false
+	if verif.Tier() > 0 {
+		// thorough: 3 keys over the int8 range, or 2 keys over the int16 range
+		if verif.Choose("shape", 2) == 0 {
+			nk = 3
+		} else {
+			wide = true
+		}
+	}
+	verif.Bound("C11d keys", "2 symbolic keys over the int8 range (quick); thorough adds 3 keys over the int8 range and 2 keys over the int16 range; held in an int64 map; all rotations and reversals of insertion order")
 	keys := make([]int64, nk)
 	vals := make([]int64, nk)
 	for i := range keys {
-		if verif.Tier() > 0 {
+		if wide {
 			keys[i] = int64(verif.I16("k"))
 		} else {
 			keys[i] = int64(verif.I8("k"))
